@@ -53,6 +53,43 @@ CLAIMED = {
             'single-example statistics are the real evaluate_example traced per row (C14 ties them to definitions); rows <= 4, '
             'classes 3, sequence length 2; float non-associativity outside the claim',
             'DESIGN.md C05'),
+    'C06': ('J', 'symbolic execution of fedjax.grad (real jax.grad through an uninterpreted differentiable loss and a quadratic '
+                 'loss), average-loss evaluators, Mime full-batch gradient pass and agnostic per-domain sums over real padded_batch '
+                 'geometries; per-coordinate equality with the unpadded definition',
+            'Bounded symbolic check: batches <=4 rows with symbolic mask bits (uninterpreted loss) / all 2^B mask patterns '
+            '(quadratic loss), datasets <=4 rows under padded geometries (batch 1..5, buckets 1..3), with/without L2 regulariser: '
+            'z3 shows gradient, average loss, full-batch gradient and per-domain sums/counts equal those of the real rows only, '
+            'regulariser once, 0 (not NaN) without real rows, for ALL parameters, data and padded-row contents.',
+            'loss ignores its key for geometry queries; padded rows have arbitrary symbolic content; domain metrics checked with '
+            'regularizer=None (as the public algorithm calls it)',
+            'DESIGN.md C06'),
+    'C10': ('J', 'symbolic execution of apply called twice with the same argument objects (and again on the resulting state) for all '
+                 '7 algorithms and 4 compression aggregators; structural snapshot of the argument state; donated_invars dataflow on '
+                 'the jit-enabled IR; concrete double-call confirmation',
+            'Bounded symbolic check: for each algorithm (2 clients, 2 rounds, momentum optimizers) z3 shows the outputs of two '
+            'identical calls are equal for ALL parameter/data/key values, the argument state keeps its container structure and '
+            'leaf identities, no leaf of the caller\'s state sits at a donated jit position; aggregator keys advance every round.',
+            'pickle round trip not claimed; arithmetic-coding encoder only in the auxiliary concrete run; hidden Python state is '
+            'seen only if it changes a repeated call',
+            'DESIGN.md C10'),
+    'C12': ('J', 'symbolic execution of FedProx/HypCluster/MimeLite/Mime/APFL apply and equality, coordinate by coordinate, with '
+                 'the definition of a FedAvg round instantiated with the gradient named in the statement',
+            'Bounded symbolic check: <=3 clients (sizes 0..4), <=2 rounds, SGD/momentum, quadratic and uninterpreted (key-consuming) '
+            'losses: z3 shows FedProx(mu=0), FedProx(symbolic mu>0, proximal loss), single-cluster HypCluster, MimeLite(SGD, lr 1), '
+            'APFL global model and one-step Mime produce exactly the FedAvg-definition parameters for ALL values.',
+            'reference is the C01 definition (checked against fed_avg by C01); key-ignoring losses where the key schedules differ by design',
+            'DESIGN.md C12'),
+    'C17': ('J', 'inductive step: one symbolic round from an ARBITRARY pre-state satisfying the invariant (weights in the open '
+                 'simplex, arbitrary non-negative window, coefficients in [0,1], arbitrary momentum state), invariant asserted on '
+                 'the post-state; HypCluster cluster indexing concretised over all assignments',
+            'Bounded inductive check: <=3 domains, window <=3, 2 clusters, <=3 clients: z3 shows the post-state of agnostic FedAvg '
+            'has positive finite weights summing to 1 and a correctly shifted window (incl. unseen domains), APFL coefficients stay '
+            'in [0,1] for ANY gradients and client_states keys = old + participants, HypCluster assigns by minimal average loss and '
+            'updates each cluster from its own clients only (empty clusters bit-identical), MimeLite aggregates only updates of '
+            'norm <= c and uses them in the server step, ignore_grads_haiku equals the base optimizer on the trainable sub-tree.',
+            'one inductive step covers histories of any length only if the stated invariant is inductive (it is asserted on the '
+            'post-state); clip norm > 0 (and 0 with non-zero updates); exp uninterpreted positive',
+            'DESIGN.md C17'),
 }
 
 NOT_APPLICABLE = {
